@@ -50,4 +50,98 @@ theorem compressed_image_checked (k : PKey) (t : Int) (full keys : Bytes) (ki : 
       Spec.messages fs = [⟨t.toNat, true, full.take (full.length - 4)⟩] := by
   first | exact PreparedLogic.compressed_image_checked .. | (apply PreparedLogic.compressed_image_checked <;> assumption)
 
+/-! ### non-vacuity -/
+section NonVacuity
+set_option linter.defProp false
+
+/-- two masking keys in the process-wide key source -/
+def witKeys : Bytes := [0x37, 0xfa, 0x21, 0x3d, 0x11, 0x22, 0x33, 0x44]
+/-- "Hello" -/
+def witHello : Bytes := [0x48, 0x65, 0x6c, 0x6c, 0x6f]
+/-- a client connection, write buffer 4096, no compression -/
+def witC : W := { newW false 4096 false false with keys := witKeys }
+/-- what NewPreparedMessage(TextMessage, "Hello") returns: one entry, the plain server frame -/
+def witPM0 : PM :=
+  { t := 1, data := witHello, cache := [(⟨true, false, 0⟩, [0x81, 0x05, 0x48, 0x65, 0x6c, 0x6c, 0x6f])] }
+/-- … it really is the cache `newPrepared` builds -/
+def witPM0_new : (match (newPrepared 1 witHello witKeys 0).1 with
+    | .ok pm => pm.cache == witPM0.cache | .error _ => false) = true := by
+  decide +kernel
+/-- the prepared message and the connection after it was sent once on `witC` (cache miss → rendered) -/
+def witPM1 : PM := (writePrepared witC witPM0 none).2.2
+def witC1 : W := (writePrepared witC witPM0 none).2.1
+/-- the masked client frame rendered for `witC`'s key with the first masking key -/
+def witImgC : Bytes := [0x81, 0x85, 0x37, 0xfa, 0x21, 0x3d, 127, 159, 77, 81, 88]
+
+/-- witness for `cached_image_sent`: the second send on the same connection is a cache hit -/
+def witPM1_hit : witPM1.lookup (prepKey witC1 witPM1) = some witImgC := by decide +kernel
+
+/-- non-vacuity of `cached_image_sent`: the hypothesis holds for a prepared "Hello" that was already
+    sent once on a client connection (buffer 4096) — the cache was filled by running `writePrepared` —
+    and the theorem applies to the second send -/
+example : writePrepared witC1 witPM1 none =
+    ((writePreparedImage witC1 witPM1.t witImgC).1, (writePreparedImage witC1 witPM1.t witImgC).2, witPM1) :=
+  cached_image_sent witC1 witPM1 witImgC witPM1_hit
+
+/-- witness for `cache_sound`: the server entry made at creation -/
+def witPM0_srv : witPM0.lookup ⟨true, false, 0⟩ = some [0x81, 0x05, 0x48, 0x65, 0x6c, 0x6c, 0x6f] := by
+  decide +kernel
+
+/-- non-vacuity of `cache_sound`: the entry made at creation survives a send on a client connection
+    (which is a miss for the client's key and adds a second entry) -/
+example : (writePrepared witC witPM0 none).2.2.lookup ⟨true, false, 0⟩ = some [0x81, 0x05, 0x48, 0x65, 0x6c, 0x6c, 0x6f] ∧
+    (writePrepared witC witPM0 none).2.2.t = witPM0.t ∧ (writePrepared witC witPM0 none).2.2.data = witPM0.data :=
+  cache_sound witC witPM0 none ⟨true, false, 0⟩ _ witPM0_srv
+
+/-- witnesses for `cache_adds_own_key`: the client's key (client, plain, level 1) is not cached yet and is uncompressed -/
+def witPM0_miss : witPM0.lookup (prepKey witC witPM0) = none := by decide +kernel
+def witPM0_plain : (prepKey witC witPM0).compress = false := by decide +kernel
+
+/-- non-vacuity of `cache_adds_own_key`: both hypotheses hold for the first send of the fresh prepared
+    message on the client connection, and the theorem applies -/
+example : (writePrepared witC witPM0 none).2.2.cache =
+    witPM0.cache ++ [(prepKey witC witPM0,
+      (renderPlain (prepKey witC witPM0) witPM0.t witPM0.data witC.keys witC.keyIdx).2.1)] :=
+  cache_adds_own_key witC witPM0 none witPM0_miss witPM0_plain
+
+/-- the RFC 7692 §7.2.3.1 deflate stream of "Hello" with its 00 00 ff ff tail -/
+def witFull : Bytes := [0xf2, 0x48, 0xcd, 0xc9, 0xc9, 0x07, 0x00, 0x00, 0x00, 0xff, 0xff]
+/-- the compressed client image: FIN+RSV1 text frame, masked with the first key, 7 payload bytes -/
+def witImgZ : Bytes := [0xc1, 0x87, 0x37, 0xfa, 0x21, 0x3d, 197, 178, 236, 244, 254, 253, 33]
+/-- witness for `compressed_image_checked`: that image passes the validation for key (client, compress, level 1) -/
+def witImgZ_ok : imageOk ⟨false, true, 1⟩ 1 witFull witKeys 0 witImgZ = true := by decide +kernel
+
+/-- non-vacuity of `compressed_image_checked`: `imageOk` holds for a real compressed client image of
+    "Hello", and the theorem applies -/
+example : ∃ fs, Spec.decodeStream witImgZ = some fs ∧ Spec.WellFormed ⟨!false, true⟩ fs ∧
+      Spec.messages fs = [⟨(1 : Int).toNat, true, witFull.take (witFull.length - 4)⟩] :=
+  compressed_image_checked ⟨false, true, 1⟩ 1 witFull witKeys 0 witImgZ witImgZ_ok
+
+/-- a client connection (buffer 4096) with permessage-deflate negotiated: its key is the compressed one,
+    and `writePrepared` accepts and caches exactly that validated image -/
+def witCZ : W := { newW false 4096 false true with keys := witKeys }
+example : prepKey witCZ witPM0 = ⟨false, true, 1⟩ ∧
+    (writePrepared witCZ witPM0 (some (witImgZ, witFull))).1 = none ∧
+    (writePrepared witCZ witPM0 (some (witImgZ, witFull))).2.2.lookup ⟨false, true, 1⟩ = some witImgZ := by
+  decide +kernel
+
+/-- a payload larger than the private connection's 4096-byte buffer -/
+def witBig : Bytes := List.replicate 5000 0x41
+
+/-- non-vacuity of `prepared_equiv`: a 5000-byte text message rendered for a client key (two frames) -/
+example :
+    let r := renderPlain ⟨false, false, 1⟩ (1 : Nat) witBig witKeys 0
+    r.1 = none ∧
+    Spec.messages (Spec.decodePrefixAux r.2.1.length r.2.1) = [⟨1, false, witBig⟩] :=
+  prepared_equiv false 1 1 (Or.inl rfl) witBig witKeys 0 (by rw [witBig, List.length_replicate]; decide)
+
+/-- … and for the server key used at creation with the 5-byte payload -/
+example :
+    let r := renderPlain ⟨true, false, 0⟩ (1 : Nat) witHello witKeys 0
+    r.1 = none ∧
+    Spec.messages (Spec.decodePrefixAux r.2.1.length r.2.1) = [⟨1, false, witHello⟩] :=
+  prepared_equiv true 0 1 (Or.inl rfl) witHello witKeys 0 (by decide)
+
+end NonVacuity
+
 end WS.Props.C19
